@@ -41,7 +41,17 @@ func memFreelist(e *drv.Env) (free, pending, all []uint64) {
 // independent reader is a clean version-2 structure in which every page below the high-water mark is
 // accounted for exactly once, it holds the model's content, and the database's own statistics,
 // Tx.Check and Tx.Page agree with that accounting.
-func checkAccounting(e *drv.Env, when string) (*refdec.Accounting, *drv.Violation) {
+func checkAccounting(e *drv.Env, when string) (a *refdec.Accounting, v *drv.Violation) {
+	// a panic of the code under test inside the oracle's own calls (Tx.Check, Tx.Page, Stats, ...) is a violation
+	v = drv.Guard("accounting oracle "+when, func() *drv.Violation {
+		var iv *drv.Violation
+		a, iv = checkAccounting1(e, when)
+		return iv
+	})
+	return a, v
+}
+
+func checkAccounting1(e *drv.Env, when string) (*refdec.Accounting, *drv.Violation) {
 	_, a, v := decodeFile(e)
 	if v != nil {
 		return nil, drv.Violf("%s: %s", when, v.Msg)
